@@ -2,20 +2,20 @@
 
    For every layer of the chain the command works through a list of [item]s (the overlay, if
    the layer is derived, then the imports in configuration order).  An item is skipped when
-   the CACHED mount table (a probe of some earlier kernel state [ksc]) shows its target
-   mounted; otherwise fs.Mount is called.  The cache is refreshed after every import mount
-   and at the end of a layer, but not after the overlay mount.  [itrace]/[ltrace] describe
+   the mount table (a probe of the rendered kernel table) shows its target mounted; otherwise
+   fs.Mount is called.  The table is re-read after every mount (overlay and imports) and at the
+   end of a layer, so every decision is taken on a fresh probe.  [itrace]/[ltrace] describe
    exactly that, and [run_mount_trace] shows that the model of a whole `mount` invocation
    produces such a trace from the layer definitions read from disk.  Everything the
    properties say about the calls is then derived from the trace by list reasoning
    (Proofs/MntPropsP.v), without looking at the monadic program again. *)
 From LC Require Import Lib.Bytes Lib.Lex Lib.Fields Lib.PathM Gen.Consts
   Model.MountInfo Model.FsTree Model.Kernel Model.Layers Cases.Verdict Cases.LC
-  Proofs.MonadP Proofs.MntSimP Proofs.MntWpP.
+  Proofs.MntSimP Proofs.MntWpP.
 Open Scope N_scope.
 
 (* ------------------------------------------------------------------ items and traces *)
-Record item := MkItem { it_src : bytes; it_tgt : bytes; it_ty : bytes; it_data : bytes; it_refresh : bool }.
+Record item := MkItem { it_src : bytes; it_tgt : bytes; it_ty : bytes; it_data : bytes; it_imp : bool }.
 
 Definition cmounted (ksc : kstate) (t : bytes) : bool :=
   match get_mount (pr_mounts (probe_of ksc)) t with Some _ => true | None => false end.
@@ -34,40 +34,39 @@ Definition kmount_it (f : fsT) (ks : kstate) (it : item) : kres :=
    calls; TFailed: stopped because the first call of an fs.Mount failed (it is the last call) *)
 Inductive tstat := TDone | TStop | TFailed.
 
-Inductive itrace : kstate -> kstate -> list item -> list op -> kstate -> kstate -> tstat -> Prop :=
-| IT_nil ks ksc : itrace ks ksc [] [] ks ksc TDone
-| IT_stop ks ksc its : itrace ks ksc its [] ks ksc TStop
-| IT_skip ks ksc it its ops ks' ksc' st :
-    cmounted ksc (it_tgt it) = true ->
-    itrace ks ksc its ops ks' ksc' st ->
-    itrace ks ksc (it :: its) ops ks' ksc' st
-| IT_mount ks ksc it its f ks1 ops ks' ksc' st :
-    cmounted ksc (it_tgt it) = false ->
+Inductive itrace : kstate -> list item -> list op -> kstate -> tstat -> Prop :=
+| IT_nil ks : itrace ks [] [] ks TDone
+| IT_stop ks its : itrace ks its [] ks TStop
+| IT_skip ks it its ops ks' st :
+    cmounted ks (it_tgt it) = true ->
+    itrace ks its ops ks' st ->
+    itrace ks (it :: its) ops ks' st
+| IT_mount ks it its f ks1 ops ks' st :
+    cmounted ks (it_tgt it) = false ->
     kmount_it f ks it = KOk ks1 ->
-    itrace ks1 (if it_refresh it then ks1 else ksc) its ops ks' ksc' st ->
-    itrace ks ksc (it :: its) (mops it true ++ ops) ks' ksc' st
-| IT_fail ks ksc it its f :
-    cmounted ksc (it_tgt it) = false ->
+    itrace ks1 its ops ks' st ->
+    itrace ks (it :: its) (mops it true ++ ops) ks' st
+| IT_fail ks it its f :
+    cmounted ks (it_tgt it) = false ->
     kmount_it f ks it = KErr ->
-    itrace ks ksc (it :: its) (mops it false) ks ksc TFailed.
+    itrace ks (it :: its) (mops it false) ks TFailed.
 
-(* layers: the cache is fresh at the start of every layer *)
 Inductive ltrace : kstate -> list (list item) -> list op -> kstate -> tstat -> Prop :=
 | LT_nil ks : ltrace ks [] [] ks TDone
 | LT_stop ks ls : ltrace ks ls [] ks TStop
-| LT_layer ks its ls ops1 ks1 ksc1 ops2 ks2 st :
-    itrace ks ks its ops1 ks1 ksc1 TDone ->
+| LT_layer ks its ls ops1 ks1 ops2 ks2 st :
+    itrace ks its ops1 ks1 TDone ->
     ltrace ks1 ls ops2 ks2 st ->
     ltrace ks (its :: ls) (ops1 ++ ops2) ks2 st
-| LT_layer_stop ks its ls ops1 ks1 ksc1 st :
+| LT_layer_stop ks its ls ops1 ks1 st :
     st <> TDone ->
-    itrace ks ks its ops1 ks1 ksc1 st ->
+    itrace ks its ops1 ks1 st ->
     ltrace ks (its :: ls) ops1 ks1 st.
 
 Lemma ltrace_done_stop ks ls ops ks' st :
   ltrace ks ls ops ks' st -> st = TDone -> ltrace ks ls ops ks' TStop.
 Proof.
-  induction 1 as [ks|ks ls|ks its ls ops1 ks1 ksc1 ops2 ks2 st Hi Hl IH|ks its ls ops1 ks1 ksc1 st Hst Hi];
+  induction 1 as [ks|ks ls|ks its ls ops1 ks1 ops2 ks2 st Hi Hl IH|ks its ls ops1 ks1 st Hst Hi];
     intros Hd; subst.
   - constructor.
   - discriminate.
@@ -95,6 +94,26 @@ Definition layer_items (c : cfgT) (m : lmap) (l : layer) : list item :=
 
 Definition chain_items (c : cfgT) (f : fsT) (n : bytes) : list (list item) :=
   map (layer_items c (LCS.layers_on_disk c f)) (LCS.chain c f n).
+
+(* the import loop of mount_one, named (convertible to the local fix of the model) *)
+Definition mount_loop e (c : cfgT) : list xmount -> ldefs -> M ldefs :=
+  fix go (xs : list xmount) (ld : ldefs) : M ldefs :=
+    match xs with
+    | [] => ret ld
+    | x :: r =>
+      match get_mount (pr_mounts (ld_probe ld)) (x_mount x) with
+      | Some mnt =>
+        if source_is_expected (pr_devs (ld_probe ld)) mnt (x_source x) then go r ld else fail
+      | None =>
+        f <- get_fs ;;
+        (if exists_ f (x_source x) then ret tt
+         else if in_any_layer_dir 64 (c_layers c) (x_source x) then fs_mkdir e (x_source x)
+         else fail) ;;;
+        fs_mount e (x_source x) (x_mount x) (x_fstype x) [] ;;;
+        ld' <- refresh_mounts c ld ;;
+        go r ld'
+      end
+    end.
 
 (* ------------------------------------------------------------------ fs.Mount *)
 Section Plain.
@@ -177,7 +196,7 @@ Lemma probe_layer_ok c f um m ld n : msim m (ld_map ld) ->
   msim m (ld_map (probe_layer c f um ld n)) /\ ld_probe (probe_layer c f um ld n) = ld_probe ld.
 Proof.
   intros Hm. unfold probe_layer. destruct (lm_get (ld_map ld) n) as [l|] eqn:El; [|auto].
-  destruct (l_state l =? st_error); [auto|]. cbv zeta. cbn [ld_map ld_probe]. split; [|reflexivity].
+  cbv zeta. cbn [ld_map ld_probe]. split; [|reflexivity].
   match goal with |- msim m (lm_set _ ?l') => set (lnew := l') end.
   assert (Hc : core lnew = core l).
   { unfold lnew.
@@ -230,11 +249,13 @@ Proof.
   match goal with |- wp ?m _ _ _ => generalize m end. intros m0.
   unfold wp at 1. destruct (m0 s0) as [[[]| | | |] s1]; try exact I.
   apply wp_bind, wp_get_fs. apply wp_ret. cbn [set_layer ld_map ld_probe]. split; [|reflexivity].
+  match goal with |- msim _ (lm_set _ (find_layerstate _ _ _ ?l1)) => set (lx := l1) end.
+  assert (Hcx : core lx = core l) by (unfold lx; destruct (_ && _); reflexivity).
+  assert (Hc : core (find_layerstate c (w_fs (s_w s1)) ld lx) = core l) by (rewrite fls_core; exact Hcx).
   apply msim_set; [apply msim_refl|]. exists l. split.
-  - assert (Hn : l_name (find_layerstate c (w_fs (s_w s1)) ld l) = l_name l).
-    { pose proof (fls_core c (w_fs (s_w s1)) ld l) as Hc. unfold core in Hc. congruence. }
+  - assert (Hn : l_name (find_layerstate c (w_fs (s_w s1)) ld lx) = l_name l) by (unfold core in Hc; congruence).
     rewrite Hn, (lm_get_name _ _ _ El). exact El.
-  - apply fls_same.
+  - unfold lsame. now rewrite Hc.
 Qed.
 
 Lemma makedirs_fold_wp c (names : list layer) : forall ld m ks ksc L s
@@ -255,29 +276,29 @@ Proof.
 Qed.
 
 (* ------------------------------------------------------------------ the import loop *)
-Lemma mount_loop_wp c m xs : forall ld ks ksc L s (Q : ldefs -> mst -> Prop) (E : rclass -> mst -> Prop),
-  K ks L s -> msim m (ld_map ld) -> ld_probe ld = probe_of ksc ->
-  (forall ld' ops ks1 ksc1 s',
-     itrace ks ksc (map xitem xs) ops ks1 ksc1 TDone -> K ks1 (L ++ ops) s' ->
-     msim m (ld_map ld') -> ld_probe ld' = probe_of ksc1 -> Q ld' s') ->
-  (forall rc ops ks1 ksc1 st s',
-     st <> TDone -> itrace ks ksc (map xitem xs) ops ks1 ksc1 st -> K ks1 (L ++ ops) s' ->
+Lemma mount_loop_wp c m xs : forall ld ks L s (Q : ldefs -> mst -> Prop) (E : rclass -> mst -> Prop),
+  K ks L s -> msim m (ld_map ld) -> ld_probe ld = probe_of ks ->
+  (forall ld' ops ks1 s',
+     itrace ks (map xitem xs) ops ks1 TDone -> K ks1 (L ++ ops) s' ->
+     msim m (ld_map ld') -> ld_probe ld' = probe_of ks1 -> Q ld' s') ->
+  (forall rc ops ks1 st s',
+     st <> TDone -> itrace ks (map xitem xs) ops ks1 st -> K ks1 (L ++ ops) s' ->
      (st = TFailed -> rc = RFail) -> E rc s') ->
   wp (mount_loop e c xs ld) Q E s.
 Proof.
-  induction xs as [|x r IH]; intros ld ks ksc L s Q E HK Hm Hp HQ HE; cbn [mount_loop map].
+  induction xs as [|x r IH]; intros ld ks L s Q E HK Hm Hp HQ HE; cbn [mount_loop map].
   - apply wp_ret. eapply HQ; [constructor| |exact Hm|exact Hp]. now rewrite app_nil_r.
-  - assert (Hc : cmounted ksc (it_tgt (xitem x))
+  - assert (Hc : cmounted ks (it_tgt (xitem x))
                  = match get_mount (pr_mounts (ld_probe ld)) (x_mount x) with Some _ => true | None => false end).
     { unfold cmounted. rewrite Hp. reflexivity. }
     assert (Hstop : forall rc, E rc s).
-    { intros rc. eapply (HE rc [] ks ksc TStop); [discriminate|constructor| |discriminate].
+    { intros rc. eapply (HE rc [] ks TStop); [discriminate|constructor| |discriminate].
       now rewrite app_nil_r. }
     destruct (get_mount (pr_mounts (ld_probe ld)) (x_mount x)) as [mnt|] eqn:Eg.
     + destruct (source_is_expected (pr_devs (ld_probe ld)) mnt (x_source x)); [|apply wp_fail, Hstop].
       eapply IH; [exact HK|exact Hm|exact Hp| |].
-      * intros ld' ops ks1 ksc1 s' Ht. apply (HQ ld' ops ks1 ksc1 s'). now apply IT_skip.
-      * intros rc ops ks1 ksc1 st s' Hst Ht. apply (HE rc ops ks1 ksc1 st s'); [exact Hst|]. now apply IT_skip.
+      * intros ld' ops ks1 s' Ht. apply (HQ ld' ops ks1 s'). now apply IT_skip.
+      * intros rc ops ks1 st s' Hst Ht. apply (HE rc ops ks1 st s'); [exact Hst|]. now apply IT_skip.
     + apply wp_bind, wp_get_fs. apply wp_bind.
       assert (Hpre : forall (m0 : M unit), kq m0 ->
                 wp m0 (fun _ s1 => K ks L s1) (fun _ s1 => K ks L s1) s).
@@ -286,7 +307,7 @@ Proof.
       eapply wp_conseq.
       { apply Hpre. destruct (exists_ (w_fs (s_w s)) (x_source x)); [apply kq_ret|].
         destruct (in_any_layer_dir 64 (c_layers c) (x_source x)); [apply kq_fs_mkdir|apply kq_fail]. }
-      2:{ intros rc s1 HK1. eapply (HE rc [] ks ksc TStop); [discriminate|constructor| |discriminate].
+      2:{ intros rc s1 HK1. eapply (HE rc [] ks TStop); [discriminate|constructor| |discriminate].
           now rewrite app_nil_r. }
       intros u1 s1 HK1. cbv beta in HK1 |- *.
       apply wp_bind.
@@ -297,33 +318,33 @@ Proof.
         apply refresh_wp.
         -- intros ld' Hs' Hp'. rewrite Hk2 in Hp'.
            eapply IH; [exact HK2|eapply msim_trans; eassumption|exact Hp'| |].
-           ++ intros ld'' ops ks2 ksc2 s3 Ht HK3.
-              apply (HQ ld'' (mops (xitem x) true ++ ops) ks2 ksc2 s3).
+           ++ intros ld'' ops ks2 s3 Ht HK3.
+              apply (HQ ld'' (mops (xitem x) true ++ ops) ks2 s3).
               ** eapply IT_mount; [exact Hc|exact Ek|exact Ht].
               ** now rewrite app_assoc.
-           ++ intros rc ops ks2 ksc2 st s3 Hst Ht HK3.
-              apply (HE rc (mops (xitem x) true ++ ops) ks2 ksc2 st s3); [exact Hst| |].
+           ++ intros rc ops ks2 st s3 Hst Ht HK3.
+              apply (HE rc (mops (xitem x) true ++ ops) ks2 st s3); [exact Hst| |].
               ** eapply IT_mount; [exact Hc|exact Ek|exact Ht].
               ** now rewrite app_assoc.
-        -- eapply (HE RPanic (mops (xitem x) true ++ []) ks1 ks1 TStop); [discriminate| | |discriminate].
+        -- eapply (HE RPanic (mops (xitem x) true ++ []) ks1 TStop); [discriminate| | |discriminate].
            ++ eapply IT_mount; [exact Hc|exact Ek|constructor].
            ++ now rewrite app_nil_r.
       * (* the propagation call failed *)
         intros f ks1 s2 Ek HK2.
-        eapply (HE RFail (mops (xitem x) true ++ []) ks1 ks1 TStop); [discriminate| | |discriminate].
+        eapply (HE RFail (mops (xitem x) true ++ []) ks1 TStop); [discriminate| | |discriminate].
         -- eapply IT_mount; [exact Hc|exact Ek|constructor].
         -- now rewrite app_nil_r.
       * (* the mount call failed *)
         intros f s2 Ek HK2.
-        eapply (HE RFail (mops (xitem x) false) ks ksc TFailed); [discriminate| |exact HK2|reflexivity].
+        eapply (HE RFail (mops (xitem x) false) ks TFailed); [discriminate| |exact HK2|reflexivity].
         eapply IT_fail; [exact Hc|exact Ek].
 Qed.
 
 (* ------------------------------------------------------------------ one layer *)
 Lemma mount_one_wp c m x ld ks L s (Q : ldefs -> mst -> Prop) (E : rclass -> mst -> Prop) :
   K ks L s -> ldok m ks ld -> lm_get m (l_name x) = Some x ->
-  (forall ld' ops ks1 ksc1 s',
-     itrace ks ks (layer_items c m x) ops ks1 ksc1 TDone -> K ks1 (L ++ ops) s' ->
+  (forall ld' ops ks1 s',
+     itrace ks (layer_items c m x) ops ks1 TDone -> K ks1 (L ++ ops) s' ->
      ldok m ks1 ld' -> expand_config_mounts c m x <> None -> Q ld' s') ->
   (forall rc ops ks1 st s',
      st <> TDone -> (forall rest, ltrace ks (layer_items c m x :: rest) ops ks1 st) ->
@@ -331,11 +352,10 @@ Lemma mount_one_wp c m x ld ks L s (Q : ldefs -> mst -> Prop) (E : rclass -> mst
   wp (mount_one e c ld (l_name x)) Q E s.
 Proof.
   intros HK [Hm Hp] Hx HQ HE.
-  (* failures of the layer in terms of its item trace *)
-  assert (HE' : forall rc ops ks1 ksc1 st s',
-            itrace ks ks (layer_items c m x) ops ks1 ksc1 st -> K ks1 (L ++ ops) s' ->
-            (st = TFailed -> rc = RFail) -> (st = TDone -> True) -> E rc s').
-  { intros rc ops ks1 ksc1 st s' Ht HK1 Hf _.
+  assert (HE' : forall rc ops ks1 st s',
+            itrace ks (layer_items c m x) ops ks1 st -> K ks1 (L ++ ops) s' ->
+            (st = TFailed -> rc = RFail) -> E rc s').
+  { intros rc ops ks1 st s' Ht HK1 Hf.
     destruct st.
     - eapply (HE rc ops ks1 TStop); [discriminate| |exact HK1|discriminate].
       intros rest. rewrite <- (app_nil_r ops). eapply LT_layer; [exact Ht|constructor].
@@ -344,24 +364,25 @@ Proof.
     - eapply (HE rc ops ks1 TFailed); [discriminate| |exact HK1|exact Hf].
       intros rest. eapply LT_layer_stop; [discriminate|exact Ht]. }
   assert (Hstop : forall rc, E rc s).
-  { intros rc. eapply (HE' rc [] ks ks TStop); [constructor| |discriminate|auto]. now rewrite app_nil_r. }
+  { intros rc. eapply (HE' rc [] ks TStop); [constructor| |discriminate]. now rewrite app_nil_r. }
   change (mount_one e c ld (l_name x)) with
     (match lm_get (ld_map ld) (l_name x) with
      | None => panic
      | Some l =>
        guard (negb (l_state l <? st_mountable)) ;;;
-       (match l_base l with
-        | [] => ret tt
-        | b0 =>
-          match get_mount (pr_mounts (ld_probe ld)) (build_path c l) with
-          | Some _ => ret tt
-          | None =>
-            match lm_get (ld_map ld) b0 with
-            | None => panic
-            | Some bl => fs_mount e overlay (build_path c l) overlay (ovl_data c bl l)
-            end
-          end
-        end) ;;;
+       ld <- (match l_base l with
+              | [] => ret ld
+              | b0 =>
+                match get_mount (pr_mounts (ld_probe ld)) (build_path c l) with
+                | Some _ => ret ld
+                | None =>
+                  match lm_get (ld_map ld) b0 with
+                  | None => panic
+                  | Some bl => fs_mount e overlay (build_path c l) overlay (ovl_data c bl l) ;;;
+                               refresh_mounts c ld
+                  end
+                end
+              end) ;;
        match expand_config_mounts c (ld_map ld) l with
        | None => fail
        | Some xs =>
@@ -381,20 +402,19 @@ Proof.
   pose proof (lsame_proj _ _ Sl) as (Hn & Hb & Hmo & _ & Hpa).
   apply wp_bind. apply wp_guard; [intros _|intros _; apply Hstop].
   rewrite <- (lsame_build c _ _ Sl), <- Hb.
-  rewrite <- (sim_expand_mounts c m (ld_map ld) x l Hm Sl).
-  (* the continuation after the overlay step, for any state of kernel/cache *)
-  assert (Hrest : forall ks0 L0 s0,
-            K ks0 L0 s0 ->
-            (forall ld' ops ks1 ksc1 s',
-               itrace ks0 ks (imp_items c m x) ops ks1 ksc1 TDone -> K ks1 (L0 ++ ops) s' ->
+  (* the continuation after the overlay step, for any ldefs / kernel *)
+  assert (Hrest : forall ldx ks0 L0 s0,
+            K ks0 L0 s0 -> msim m (ld_map ldx) -> ld_probe ldx = probe_of ks0 ->
+            (forall ld' ops ks1 s',
+               itrace ks0 (imp_items c m x) ops ks1 TDone -> K ks1 (L0 ++ ops) s' ->
                ldok m ks1 ld' -> expand_config_mounts c m x <> None -> Q ld' s') ->
-            (forall rc ops ks1 ksc1 st s',
-               itrace ks0 ks (imp_items c m x) ops ks1 ksc1 st -> K ks1 (L0 ++ ops) s' ->
+            (forall rc ops ks1 st s',
+               itrace ks0 (imp_items c m x) ops ks1 st -> K ks1 (L0 ++ ops) s' ->
                (st = TFailed -> rc = RFail) -> E rc s') ->
-            wp (match expand_config_mounts c m x with
+            wp (match expand_config_mounts c (ld_map ldx) l with
                 | None => fail
                 | Some xs =>
-                  ld0 <- mount_loop e c xs ld ;;
+                  ld0 <- mount_loop e c xs ldx ;;
                   ld1 <- refresh_mounts c ld0 ;;
                   f <- get_fs ;;
                   match lm_get (ld_map ld1) (l_name x) with
@@ -405,16 +425,17 @@ Proof.
                     ret (set_layer ld1 l2)
                   end
                 end) Q E s0).
-  { intros ks0 L0 s0 HK0 HQ0 HE0. unfold imp_items in HQ0, HE0.
+  { intros ldx ks0 L0 s0 HK0 Hmx Hpx HQ0 HE0. unfold imp_items in HQ0, HE0.
+    rewrite <- (sim_expand_mounts c m (ld_map ldx) x l Hmx Sl).
     destruct (expand_config_mounts c m x) as [xs|].
-    2:{ apply wp_fail. eapply (HE0 RFail [] ks0 ks TStop); [constructor| |discriminate].
+    2:{ apply wp_fail. eapply (HE0 RFail [] ks0 TStop); [constructor| |discriminate].
         now rewrite app_nil_r. }
-    apply wp_bind. eapply (mount_loop_wp c m xs); [exact HK0|exact Hm|exact Hp| |].
-    2:{ intros rc ops ks1 ksc1 st s' _ Ht HK1 Hf. eapply HE0; eassumption. }
-    intros ld0 ops ks1 ksc1 s1 Ht HK1 Hm0 Hp0.
+    apply wp_bind. eapply (mount_loop_wp c m xs); [exact HK0|exact Hmx|exact Hpx| |].
+    2:{ intros rc ops ks1 st s' _ Ht HK1 Hf. eapply HE0; eassumption. }
+    intros ld0 ops ks1 s1 Ht HK1 Hm0 Hp0.
     assert (Hk1 : kst s1 = ks1) by apply HK1.
     assert (Hst1 : forall rc, E rc s1).
-    { intros rc. eapply (HE0 rc ops ks1 ksc1 TDone); [exact Ht|exact HK1|discriminate]. }
+    { intros rc. eapply (HE0 rc ops ks1 TDone); [exact Ht|exact HK1|discriminate]. }
     apply wp_bind. apply refresh_wp; [|apply Hst1].
     intros ld1 Hs1 Hp1. rewrite Hk1 in Hp1.
     assert (Hm1 : msim m (ld_map ld1)) by (eapply msim_trans; eassumption).
@@ -432,9 +453,9 @@ Proof.
   destruct (l_base x) as [|b0c b0r] eqn:Ebase.
   - (* not derived: no overlay item *)
     apply wp_bind, wp_ret. cbn [app] in HQ, HE'.
-    apply (Hrest ks L s HK).
-    + intros ld' ops ks1 ksc1 s' Ht HK1 Hok Hex. eapply HQ; eassumption.
-    + intros rc ops ks1 ksc1 st s' Ht HK1 Hf. eapply HE'; eauto.
+    apply (Hrest ld ks L s HK Hm Hp).
+    + intros ld' ops ks1 s' Ht HK1 Hok Hex. eapply HQ; eassumption.
+    + intros rc ops ks1 st s' Ht HK1 Hf. eapply HE'; eauto.
   - set (ovl := MkItem overlay (build_path c x) overlay
                   (match lm_get m (b0c :: b0r) with Some bl => ovl_data c bl x | None => [] end) false) in *.
     cbn [app] in HQ, HE'.
@@ -443,10 +464,10 @@ Proof.
     { unfold cmounted. rewrite Hp. reflexivity. }
     apply wp_bind.
     destruct (get_mount (pr_mounts (ld_probe ld)) (build_path c x)) as [mnt|] eqn:Eg.
-    + apply wp_ret. apply (Hrest ks L s HK).
-      * intros ld' ops ks1 ksc1 s' Ht HK1 Hok Hex. eapply HQ; [|exact HK1|exact Hok|exact Hex].
+    + apply wp_ret. apply (Hrest ld ks L s HK Hm Hp).
+      * intros ld' ops ks1 s' Ht HK1 Hok Hex. eapply HQ; [|exact HK1|exact Hok|exact Hex].
         apply IT_skip; [exact Hc|exact Ht].
-      * intros rc ops ks1 ksc1 st s' Ht HK1 Hf. eapply HE'; [|exact HK1|exact Hf|auto].
+      * intros rc ops ks1 st s' Ht HK1 Hf. eapply HE'; [|exact HK1|exact Hf].
         apply IT_skip; [exact Hc|exact Ht].
     + pose proof (msim_get m (ld_map ld) (b0c :: b0r) Hm) as Gb.
       destruct (lm_get (ld_map ld) (b0c :: b0r)) as [bl'|] eqn:Ebl'; [|apply wp_panic, Hstop].
@@ -454,22 +475,28 @@ Proof.
       assert (Hdata : ovl_data c bl' l = it_data ovl).
       { unfold ovl. cbn [it_data]. unfold ovl_data.
         now rewrite (lsame_build c _ _ Gb), (lsame_upper c _ _ Sl), (lsame_work c _ _ Sl). }
-      rewrite Hdata.
+      rewrite Hdata. apply wp_bind.
       apply (fs_mount_wp ovl ks L s); [exact HK| | |].
       * intros f ks1 s1 Ek HK1.
-        apply (Hrest ks1 (L ++ mops ovl true) s1 HK1).
-        -- intros ld' ops ks2 ksc2 s' Ht HK2 Hok Hex.
-           eapply HQ; [|rewrite app_assoc; exact HK2|exact Hok|exact Hex].
-           eapply IT_mount; [exact Hc|exact Ek|exact Ht].
-        -- intros rc ops ks2 ksc2 st s' Ht HK2 Hf.
-           eapply HE'; [|rewrite app_assoc; exact HK2|exact Hf|auto].
-           eapply IT_mount; [exact Hc|exact Ek|exact Ht].
+        assert (Hk1 : kst s1 = ks1) by apply HK1.
+        apply refresh_wp.
+        -- intros ldx Hsx Hpx. rewrite Hk1 in Hpx.
+           apply (Hrest ldx ks1 (L ++ mops ovl true) s1 HK1); [eapply msim_trans; eassumption|exact Hpx| |].
+           ++ intros ld' ops ks2 s' Ht HK2 Hok Hex.
+              eapply HQ; [|rewrite app_assoc; exact HK2|exact Hok|exact Hex].
+              eapply IT_mount; [exact Hc|exact Ek|exact Ht].
+           ++ intros rc ops ks2 st s' Ht HK2 Hf.
+              eapply HE'; [|rewrite app_assoc; exact HK2|exact Hf].
+              eapply IT_mount; [exact Hc|exact Ek|exact Ht].
+        -- eapply (HE' RPanic (mops ovl true ++ []) ks1 TStop); [| |discriminate].
+           ++ eapply IT_mount; [exact Hc|exact Ek|constructor].
+           ++ now rewrite app_nil_r.
       * intros f ks1 s1 Ek HK1.
-        eapply (HE' RFail (mops ovl true ++ []) ks1 ks TStop); [| |discriminate|auto].
+        eapply (HE' RFail (mops ovl true ++ []) ks1 TStop); [| |discriminate].
         -- eapply IT_mount; [exact Hc|exact Ek|constructor].
         -- now rewrite app_nil_r.
       * intros f s1 Ek HK1.
-        eapply (HE' RFail (mops ovl false) ks ks TFailed); [|exact HK1|reflexivity|auto].
+        eapply (HE' RFail (mops ovl false) ks TFailed); [|exact HK1|reflexivity].
         eapply IT_fail; [exact Hc|exact Ek].
 Qed.
 
@@ -493,7 +520,7 @@ Proof.
   - cbn [map] in Hn. injection Hn as Hy Hn. rewrite Hy.
     inversion Hx as [|? ? Hx1 Hx2]; subst.
     apply wp_bind. eapply (mount_one_wp c m x); [exact HK|exact Hok|exact Hx1| |].
-    + intros ld1 ops ks1 ksc1 s1 Ht HK1 Hok1 Hex1.
+    + intros ld1 ops ks1 s1 Ht HK1 Hok1 Hex1.
       eapply (IH names); [exact Hn|exact Hx2|exact HK1|exact Hok1| |].
       * intros ld' ops2 ks2 s' Hl HK2 Hok2 Hex2.
         eapply HQ; [|rewrite app_assoc; exact HK2|exact Hok2|constructor; assumption].
